@@ -36,11 +36,15 @@ def fixed_param_templates():
     P = ("par", "p", F(1), F(0))
     out = []
     # dependence on the parameter only through another variable's initial value
-    out.append(("init_chain", {"vars": ["x", "y", "z"], "s0": {}, "guard": ("true",),
-                               "init": [asg("x", [(P, ONE)]), asg("y", [(F(1), V("x", 2)), (F(1), ONE)]), asg("z", [])],
+    out.append(("init_chain", {"vars": ["w", "x", "y", "z"], "s0": {}, "guard": ("true",),
+                               "init": [asg("x", [(P, ONE)]), asg("y", [(F(1), V("x", 2)), (F(1), ONE)]), asg("z", []),
+                                        asg("w", [(F(1), V("x", 2)), (F(2), V("x"))])],
                                "body": [("assign", "x", [(F(1, 2), [(F(1), V("x")), (F(1), ONE)]), (F(1, 2), [(F(1), V("x"))])], ("true",), "x"),
                                         asg("y", [(F(1), V("y")), (F(1), V("x"))]),
-                                        asg("z", [(F(1), V("z")), (F(1), V("y"))])]}, ["x", "y", "z", "y**2"]))
+                                        asg("z", [(F(1), V("z")), (F(1), V("y"))]),
+                                        # w depends on p only through x's INITIAL value
+                                        ("assign", "w", [(F(1, 2), [(F(2), V("w"))]), (F(1, 2), [(F(1), V("w")), (F(1), ONE)])], ("true",), "w")]},
+                ["x", "y", "z", "y**2", "w", "w**2"]))
     # a dependence chain that runs against the program order
     out.append(("long_chain", {"vars": ["a", "b", "c", "d"], "s0": {}, "guard": ("true",),
                                "init": [asg(v, []) for v in "abcd"],
